@@ -282,7 +282,8 @@ def ROUNDDOWN(number, digits):
 
 @dispatcher.register_for('SUM')
 def SUM(*args):
-    return sum(utils.inumbers(args, try_parse=True))
+    # all items first: an error value among them is the result even if the sum of the items before it cannot be held
+    return sum(list(utils.inumbers(args, try_parse=True)))
 
 
 @dispatcher.register_for('SUMIF')
@@ -400,7 +401,8 @@ def DEGREES(number):
 
 @dispatcher.register_for('PRODUCT')
 def PRODUCT(*args):
-    return reduce(operator.mul, utils.inumbers(args))
+    # all items first, as in SUM
+    return reduce(operator.mul, list(utils.inumbers(args)))
 
 
 @dispatcher.register_for('ODD')
